@@ -131,6 +131,13 @@ func ruleSentinelScrub(c *Ctx, r *R) {
 						if al := pairAlloc(st.Val); al != nil && scrubbed(al) {
 							cutStore[st] = true
 						}
+						inner := st.Val
+						if mi, ok := inner.(*ssa.MakeInterface); ok {
+							inner = mi.X
+						}
+						if hc, ok := inner.(*ssa.Call); ok && isScrubHelper(hc.Call.StaticCallee(), isSentinel) {
+							cutStore[st] = true
+						}
 					}
 				}
 			}
@@ -239,6 +246,16 @@ func ruleSentinelScrub(c *Ctx, r *R) {
 					bad = "an accessor pair reaches writeProperty without both of its elements having been compared with the placeholder and set to nil"
 				}
 				return
+			}
+			// the pair returned by a scrubbing helper (every element compared with the placeholder and set to nil)
+			{
+				inner := v
+				if mi, ok := inner.(*ssa.MakeInterface); ok {
+					inner = mi.X
+				}
+				if hc, ok := inner.(*ssa.Call); ok && isScrubHelper(hc.Call.StaticCallee(), isSentinel) {
+					return
+				}
 			}
 			if a := loadAddr(v); a != nil {
 				if nt, f := fieldOfAddr(a); nt != nil && nt.Obj().Name() == "property" && f.Name() == "value" {
@@ -440,4 +457,57 @@ func ruleSentinelInband(c *Ctx, r *R) {
 	if n == 0 {
 		r.ok("census", "-", "no function mixes a constant answer with computed code units")
 	}
+}
+
+// isScrubHelper: fn takes an accessor pair by value, compares every element with the placeholder, stores nil over it,
+// and returns the pair: either with the two constant indices or in a loop over the indices.
+func isScrubHelper(fn *ssa.Function, isSentinel func(ssa.Value) bool) bool {
+	if fn == nil || len(fn.Blocks) == 0 || len(fn.Params) != 1 {
+		return false
+	}
+	if n := derefNamed(fn.Params[0].Type()); n == nil || n.Obj().Name() != "propertyGetSet" {
+		return false
+	}
+	done := map[int64]bool{}
+	loop := false
+	for _, b := range fn.Blocks {
+		iff, ok := b.Instrs[len(b.Instrs)-1].(*ssa.If)
+		if !ok {
+			continue
+		}
+		cmp, ok := iff.Cond.(*ssa.BinOp)
+		if !ok || cmp.Op != token.EQL || !(isSentinel(cmp.X) || isSentinel(cmp.Y)) {
+			continue
+		}
+		for _, ins := range b.Succs[0].Instrs {
+			st, ok := ins.(*ssa.Store)
+			if !ok || !isNilConst(st.Val) {
+				continue
+			}
+			ia, ok := st.Addr.(*ssa.IndexAddr)
+			if !ok {
+				continue
+			}
+			if k, isK := constInt(ia.Index); isK {
+				done[k] = true
+			} else {
+				loop = true // an index that runs over the pair (range loop)
+			}
+		}
+	}
+	if !(loop || (done[0] && done[1])) {
+		return false
+	}
+	// every return hands back the scrubbed local
+	for _, b := range fn.Blocks {
+		if ret, ok := b.Instrs[len(b.Instrs)-1].(*ssa.Return); ok {
+			if len(ret.Results) != 1 {
+				return false
+			}
+			if a := loadAddr(ret.Results[0]); a == nil {
+				return false
+			}
+		}
+	}
+	return true
 }
